@@ -172,6 +172,15 @@ func (l *lbCtx) lb0(v ssa.Value) int64 {
 					r = minLb(r, l.lb(a))
 				}
 				return r
+			case "max":
+				// at least the largest of the known bounds
+				r := int64(lbUnknown)
+				for _, a := range cc.Args {
+					if b := l.lb(a); b != lbUnknown && (r == lbUnknown || b > r) {
+						r = b
+					}
+				}
+				return r
 			}
 			return lbUnknown
 		}
